@@ -89,10 +89,12 @@ func (e *Engine) tryMerge(st *State, fr *Frame, x *ssa.If, c *Term) bool {
 	}
 	e.postdoms(fr.fn, fr.fi)
 	j := fr.fi.ipdom[fr.block.Index]
-	if j < 0 {
-		return false
+	var J *ssa.BasicBlock
+	if j >= 0 {
+		J = fr.fn.Blocks[j]
+	} else if len(st.frames) < 2 || len(fr.defers) > 0 || fr.discard {
+		return false // region ends with the function's return: merge in the caller (needs one)
 	}
-	J := fr.fn.Blocks[j]
 	depth := len(st.frames)
 	a := e.clone(st)
 	b := e.clone(st)
@@ -105,11 +107,13 @@ func (e *Engine) tryMerge(st *State, fr *Frame, x *ssa.If, c *Term) bool {
 	e.inMerge--
 	if !ok {
 		e.stats.MergeFails++
+		e.stubsUsed["mergefail: "+e.lastAbort+" @ "+fr.fn.Name()]++
 		return false
 	}
-	m := e.mergeStates(st, a, b, c)
+	m := e.mergeStates(st, a, b, c, J)
 	if m == nil {
 		e.stats.MergeFails++
+		e.stubsUsed["mergefail: "+e.lastAbort+" @ "+fr.fn.Name()]++
 		return false
 	}
 	e.stats.Merges++
@@ -121,12 +125,15 @@ func (e *Engine) runSub(s *State, depth int, J *ssa.BasicBlock) bool {
 	start := s.steps
 	stop := func(st *State) bool {
 		if len(st.frames) < depth {
+			if J == nil && len(st.frames) == depth-1 {
+				return true // the function returned to its caller: arrival point of a return-merge
+			}
 			panic(mergeAbort{"frame returned"})
 		}
 		if st.steps-start > e.mergeCap {
 			panic(mergeAbort{"step cap"})
 		}
-		if len(st.frames) == depth {
+		if len(st.frames) == depth && J != nil {
 			fr := st.top()
 			if fr.block == J {
 				if _, isPhi := fr.block.Instrs[fr.ip].(*ssa.Phi); !isPhi {
@@ -137,7 +144,17 @@ func (e *Engine) runSub(s *State, depth int, J *ssa.BasicBlock) bool {
 		return false
 	}
 	sig := e.run(s, stop)
-	return sig == nil
+	switch x := sig.(type) {
+	case nil:
+		return true
+	case mergeAbort:
+		e.lastAbort = x.why
+	case forkReq:
+		e.lastAbort = "fork inside region"
+	case pathEnd:
+		e.lastAbort = "path ended inside region: " + x.o.Kind
+	}
+	return false
 }
 
 func mergeVal(c *Term, a, b Value) (Value, bool) {
@@ -178,33 +195,55 @@ func mergeVal(c *Term, a, b Value) (Value, bool) {
 	return nil, false
 }
 
-func (e *Engine) mergeStates(orig, a, b *State, c *Term) *State {
+func (e *Engine) mergeStates(orig, a, b *State, c *Term, J *ssa.BasicBlock) *State {
 	if len(a.frames) != len(b.frames) || len(a.nd) != len(orig.nd) || len(b.nd) != len(orig.nd) {
+		e.lastAbort = "structural#1"
 		return nil
 	}
 	if len(a.subst) != len(orig.subst) || len(b.subst) != len(orig.subst) {
+		e.lastAbort = "structural#2"
 		return nil
 	}
 	if len(a.held) != len(b.held) || len(a.acc) != len(b.acc) {
+		e.lastAbort = "structural#3"
 		return nil
 	}
 	for i := range a.held {
 		if a.held[i] != b.held[i] {
+			e.lastAbort = "structural#4"
 			return nil
 		}
 	}
 	fa, fb := a.top(), b.top()
 	if fa.block != fb.block || fa.ip != fb.ip || len(fa.defers) != len(fb.defers) || fa.inDefers != fb.inDefers {
+		e.lastAbort = "structural#5"
 		return nil
 	}
 	for i := range fa.defers {
 		if !sameValue(fa.defers[i].fn, fb.defers[i].fn) || !sameValue(Tuple(fa.defers[i].args), Tuple(fb.defers[i].args)) {
+			e.lastAbort = "structural#6"
 			return nil
 		}
 	}
 	for i := range fa.regs {
+		if fa.regs[i] == nil || fb.regs[i] == nil {
+			// defined on one side only: an SSA value local to the region, dead after the join
+			if fa.regs[i] == nil {
+				fa.regs[i] = fb.regs[i]
+			}
+			continue
+		}
 		v, ok := mergeVal(c, fa.regs[i], fb.regs[i])
 		if !ok {
+			// region-local pointers etc. that differ are dead after the join as well if neither side's
+			// definition dominates the join; keep a's (a use would have to go through a phi, merged above)
+			if !e.definedBefore(fa, i, orig) {
+				continue
+			}
+			if J != nil && fa.fi.defBlk[i] != nil && !fa.fi.defBlk[i].Dominates(J) {
+				continue // a stale value of an earlier loop iteration; no use at or after the join can see it
+			}
+			e.lastAbort = "structural#7"
 			return nil
 		}
 		fa.regs[i] = v
@@ -228,20 +267,24 @@ func (e *Engine) mergeStates(orig, a, b *State, c *Term) *State {
 			continue
 		}
 		if len(oa.cells) != len(ob.cells) {
+			e.lastAbort = "structural#8"
 			return nil
 		}
 		var nm *MapData
 		if oa.m != ob.m {
 			if oa.m == nil || ob.m == nil || len(oa.m.Keys) != len(ob.m.Keys) {
+				e.lastAbort = "structural#9"
 				return nil
 			}
 			nm = &MapData{Keys: oa.m.Keys, Vals: make([]Value, len(oa.m.Vals))}
 			for i := range oa.m.Keys {
 				if !sameValue(oa.m.Keys[i], ob.m.Keys[i]) {
+					e.lastAbort = "structural#10"
 					return nil
 				}
 				v, ok := mergeVal(c, oa.m.Vals[i], ob.m.Vals[i])
 				if !ok {
+					e.lastAbort = "structural#11"
 					return nil
 				}
 				nm.Vals[i] = v
@@ -254,6 +297,7 @@ func (e *Engine) mergeStates(orig, a, b *State, c *Term) *State {
 			}
 			v, ok := mergeVal(c, oa.cells[i], ob.cells[i])
 			if !ok {
+				e.lastAbort = "structural#12"
 				return nil
 			}
 			if cells == nil {
@@ -289,6 +333,7 @@ func (e *Engine) mergeStates(orig, a, b *State, c *Term) *State {
 			continue
 		}
 		if len(oa.cells) != len(ob.cells) || oa.m != ob.m {
+			e.lastAbort = "structural#13"
 			return nil
 		}
 		var cells []Value
@@ -298,6 +343,7 @@ func (e *Engine) mergeStates(orig, a, b *State, c *Term) *State {
 			}
 			v, ok := mergeVal(c, oa.cells[i], ob.cells[i])
 			if !ok {
+				e.lastAbort = "structural#14"
 				return nil
 			}
 			if cells == nil {
@@ -332,4 +378,13 @@ func (e *Engine) mergeStates(orig, a, b *State, c *Term) *State {
 	}
 	a.memo = nil
 	return a
+}
+
+// definedBefore reports whether register i already had a value in the pre-branch state.
+func (e *Engine) definedBefore(fa *Frame, i int, orig *State) bool {
+	of := orig.top()
+	if len(orig.frames) == 0 || of.fn != fa.fn || i >= len(of.regs) {
+		return true
+	}
+	return of.regs[i] != nil
 }
